@@ -7,6 +7,16 @@ set_option linter.unusedVariables false
 namespace Starcal.Gen.Src
 open Starcal
 
+structure hijri_MonthData where
+  Version : List Int
+  StartDate : List Int
+  StartJd : Int
+  MonthLen : List (List Int)
+  ExpJd : Int
+  MonthLenByYm : List (Int × Int)
+  EndJd : Int
+deriving DecidableEq, Repr
+
 structure interval_IntervalPoint where
   Pos : Int
   IsEnd : Bool
@@ -31,16 +41,6 @@ structure rules_WeekMonth where
   WeekIndex : Int
   WeekDay : Int
   Month : Int
-deriving DecidableEq, Repr
-
-structure hijri_MonthData where
-  Version : List Int
-  StartDate : List Int
-  StartJd : Int
-  MonthLen : List (List Int)
-  ExpJd : Int
-  MonthLenByYm : List (Int × Int)
-  EndJd : Int
 deriving DecidableEq, Repr
 
 def julian_monthLen : List Int := [31, 28, 31, 30, 31, 30, 31, 31, 30, 31, 30, 31]
@@ -897,6 +897,48 @@ def hijri_MonthData_GetJdFromDate (mdata : hijri_MonthData) (date : GoSem.Date) 
     | GoSem.Flow.next jd =>
       pure (((jd + (date).Day) - 1), true)
 
+/-- cal_types/hijri/hijri.go:244 -/
+def hijriT_IsLeap (year : Int) : Option Bool := do
+  pure (decide ((← (utils_Mod ((year * 11) + 14) 30)) < 11))
+
+/-- cal_types/hijri/hijri.go:169 -/
+def hijriT_MonthData_GetJdFromDate (mdata : hijri_MonthData) (date : GoSem.Date) : Option (Int × Bool) := do
+  let year := (date).Year
+  let ym := (((year * 12) + (date).Month) - 1)
+  let (_u1, ok) := GoSem.mapGet2 (mdata).MonthLenByYm (ym - 1)
+  if (!ok) then
+    pure (0, false)
+  else
+    let ym0 := ((((← (GoSem.idx (mdata).StartDate 0)) * 12) + (← (GoSem.idx (mdata).StartDate 1))) - 1)
+    let jd := (mdata).StartJd
+    let _r2 ← GoSem.forCount (ρ := Empty) (fun jd ymi => do
+        let (plus, ok_1) := GoSem.mapGet2 (mdata).MonthLenByYm ymi
+        if (!ok_1) then
+          none
+        else
+          let jd := (jd + plus)
+          pure (GoSem.Flow.next jd)
+      ) ym0 ym jd
+    match _r2 with
+    | GoSem.Flow.ret _v => nomatch _v
+    | GoSem.Flow.next jd =>
+      pure (((jd + (date).Day) - 1), true)
+
+/-- cal_types/hijri/hijri.go:248 -/
+def hijriT_ToJd (monthData : hijri_MonthData) (date : GoSem.Date) : Option Int := do
+  let (jd, ok) ← (hijriT_MonthData_GetJdFromDate monthData date)
+  if ok then
+    pure jd
+  else
+    pure (((((date).Day + (GoSem.ftoi ((Rat.ceil (((59 : Rat) / 2) * (((GoSem.u8 ((date).Month - 1)) : Int) : Rat)) : Int) : Rat))) + (((date).Year - 1) * 354)) + (← (utils_Div ((11 * (date).Year) + 3) 30))) + 1948440)
+
+/-- cal_types/hijri/hijri.go:281 -/
+def hijriT_GetMonthLen (monthData : hijri_MonthData) (year : Int) (month : Int) : Option Int := do
+  if (decide (month = 12)) then
+    pure (GoSem.u8 ((← (hijriT_ToJd monthData (← (SrcExt.lib_NewDate (year + 1) 1 1)))) - (← (hijriT_ToJd monthData (← (SrcExt.lib_NewDate year 12 1))))))
+  else
+    pure (GoSem.u8 ((← (hijriT_ToJd monthData (← (SrcExt.lib_NewDate year (GoSem.u8 (month + 1)) 1)))) - (← (hijriT_ToJd monthData (← (SrcExt.lib_NewDate year month 1))))))
+
 /-! ### overflow-checked copies: the same code with every int / int64 `+ - *`, negation and non-constant `/` passed
     through GoSem.chk64 (`none` when the exact result does not fit in 64 bits) -/
 
@@ -1747,7 +1789,49 @@ def hijri_MonthData_GetJdFromDate_chk (mdata : hijri_MonthData) (date : GoSem.Da
     | GoSem.Flow.next jd =>
       pure ((← (GoSem.chk64 ((← (GoSem.chk64 (jd + (date).Day))) - 1))), true)
 
+/-- cal_types/hijri/hijri.go:244 -/
+def hijriT_IsLeap_chk (year : Int) : Option Bool := do
+  pure (decide ((← (utils_Mod_chk (← (GoSem.chk64 ((← (GoSem.chk64 (year * 11))) + 14))) 30)) < 11))
+
+/-- cal_types/hijri/hijri.go:169 -/
+def hijriT_MonthData_GetJdFromDate_chk (mdata : hijri_MonthData) (date : GoSem.Date) : Option (Int × Bool) := do
+  let year := (date).Year
+  let ym ← (GoSem.chk64 ((← (GoSem.chk64 ((← (GoSem.chk64 (year * 12))) + (date).Month))) - 1))
+  let (_u1, ok) := GoSem.mapGet2 (mdata).MonthLenByYm (← (GoSem.chk64 (ym - 1)))
+  if (!ok) then
+    pure (0, false)
+  else
+    let ym0 ← (GoSem.chk64 ((← (GoSem.chk64 ((← (GoSem.chk64 ((← (GoSem.idx (mdata).StartDate 0)) * 12))) + (← (GoSem.idx (mdata).StartDate 1))))) - 1))
+    let jd := (mdata).StartJd
+    let _r2 ← GoSem.forCount (ρ := Empty) (fun jd ymi => do
+        let (plus, ok_1) := GoSem.mapGet2 (mdata).MonthLenByYm ymi
+        if (!ok_1) then
+          none
+        else
+          let jd ← (GoSem.chk64 (jd + plus))
+          pure (GoSem.Flow.next jd)
+      ) ym0 ym jd
+    match _r2 with
+    | GoSem.Flow.ret _v => nomatch _v
+    | GoSem.Flow.next jd =>
+      pure ((← (GoSem.chk64 ((← (GoSem.chk64 (jd + (date).Day))) - 1))), true)
+
+/-- cal_types/hijri/hijri.go:248 -/
+def hijriT_ToJd_chk (monthData : hijri_MonthData) (date : GoSem.Date) : Option Int := do
+  let (jd, ok) ← (hijriT_MonthData_GetJdFromDate_chk monthData date)
+  if ok then
+    pure jd
+  else
+    (GoSem.chk64 ((← (GoSem.chk64 ((← (GoSem.chk64 ((← (GoSem.chk64 ((date).Day + (GoSem.ftoi ((Rat.ceil (((59 : Rat) / 2) * (((GoSem.u8 ((date).Month - 1)) : Int) : Rat)) : Int) : Rat))))) + (← (GoSem.chk64 ((← (GoSem.chk64 ((date).Year - 1))) * 354)))))) + (← (utils_Div_chk (← (GoSem.chk64 ((← (GoSem.chk64 (11 * (date).Year))) + 3))) 30))))) + 1948440))
+
+/-- cal_types/hijri/hijri.go:281 -/
+def hijriT_GetMonthLen_chk (monthData : hijri_MonthData) (year : Int) (month : Int) : Option Int := do
+  if (decide (month = 12)) then
+    pure (GoSem.u8 (← (GoSem.chk64 ((← (hijriT_ToJd_chk monthData (← (SrcExt.lib_NewDate (← (GoSem.chk64 (year + 1))) 1 1)))) - (← (hijriT_ToJd_chk monthData (← (SrcExt.lib_NewDate year 12 1))))))))
+  else
+    pure (GoSem.u8 (← (GoSem.chk64 ((← (hijriT_ToJd_chk monthData (← (SrcExt.lib_NewDate year (GoSem.u8 (month + 1)) 1)))) - (← (hijriT_ToJd_chk monthData (← (SrcExt.lib_NewDate year month 1))))))))
+
 /-- the functions translated on this run -/
-def translated : List String := ["utils_Mod", "utils_Div", "utils_Divmod", "utils_IntMin", "utils_GetHmsBySeconds", "utils_MonthListIsValid", "utils_DayListIsValid", "utils_WeekDayListIsValid", "utils_bisectLeftRange", "utils_BisectLeft", "lib_GetTotalSeconds", "lib_GetFloatHour", "lib_FloatHourToHMS", "lib_toUint8", "lib_HMS_IsValid", "lib_Date_IsValid", "interval_Less", "interval_GetPointList", "interval_GetIntervalList", "interval_Normalize", "interval_Humanize", "interval_Extract", "interval_IntervalListByNumList", "interval_intersectionOfSomeIntervalLists_endPoint", "interval_IntersectionOfSomeIntervalLists", "interval_Intersection", "stack_Push", "stack_Pop", "rules_WeekMonth_IsValid", "julian_IsLeap", "julian_getYearDays", "julian_getMonthDayFromYdays", "julian_ToJd", "julian_JdTo", "julian_GetMonthLen", "jalali_IsLeap", "jalali_getMonthDayFromYdays", "jalali_ToJd", "jalali_JdTo", "jalali_GetMonthLen", "ethiopian_IsLeap", "ethiopian_ToJd", "ethiopian_JdTo", "ethiopian_GetMonthLen", "gprol_IsLeap", "gprol_ToJd", "gprol_JdTo", "gprol_GetMonthLen", "indian_IsLeap", "indian_ToJd", "indian_JdTo", "indian_GetMonthLen", "hijri_IsLeap", "hijri_ToJd", "hijri_JdTo", "hijri_GetMonthLen", "hijri_MonthData_GetDateFromJd", "hijri_MonthData_GetJdFromDate"]
+def translated : List String := ["utils_Mod", "utils_Div", "utils_Divmod", "utils_IntMin", "utils_GetHmsBySeconds", "utils_MonthListIsValid", "utils_DayListIsValid", "utils_WeekDayListIsValid", "utils_bisectLeftRange", "utils_BisectLeft", "lib_GetTotalSeconds", "lib_GetFloatHour", "lib_FloatHourToHMS", "lib_toUint8", "lib_HMS_IsValid", "lib_Date_IsValid", "interval_Less", "interval_GetPointList", "interval_GetIntervalList", "interval_Normalize", "interval_Humanize", "interval_Extract", "interval_IntervalListByNumList", "interval_intersectionOfSomeIntervalLists_endPoint", "interval_IntersectionOfSomeIntervalLists", "interval_Intersection", "stack_Push", "stack_Pop", "rules_WeekMonth_IsValid", "julian_IsLeap", "julian_getYearDays", "julian_getMonthDayFromYdays", "julian_ToJd", "julian_JdTo", "julian_GetMonthLen", "jalali_IsLeap", "jalali_getMonthDayFromYdays", "jalali_ToJd", "jalali_JdTo", "jalali_GetMonthLen", "ethiopian_IsLeap", "ethiopian_ToJd", "ethiopian_JdTo", "ethiopian_GetMonthLen", "gprol_IsLeap", "gprol_ToJd", "gprol_JdTo", "gprol_GetMonthLen", "indian_IsLeap", "indian_ToJd", "indian_JdTo", "indian_GetMonthLen", "hijri_IsLeap", "hijri_ToJd", "hijri_JdTo", "hijri_GetMonthLen", "hijri_MonthData_GetDateFromJd", "hijri_MonthData_GetJdFromDate", "hijriT_IsLeap", "hijriT_MonthData_GetJdFromDate", "hijriT_ToJd", "hijriT_GetMonthLen"]
 
 end Starcal.Gen.Src
